@@ -16,6 +16,7 @@ use crate::guard::guarded;
 use crate::queries::Live;
 use crate::queries::Step;
 use crate::queries::gen_step;
+use crate::queries::hex;
 use crate::rng::Rng;
 use crate::store::wal_name;
 use agdb::Db;
@@ -250,6 +251,54 @@ pub fn gen_case(rng: &mut Rng, tmp: &str, max: u64) -> Vec<String> {
         let mut live = Live::default();
         let n = rng.range(4, max);
         let ops = ["reopen", "optimize", "shrink", "backup", "copy", "rename", "as_mmap", "as_file", "as_any_file", "as_any_mmap"];
+        // bulk profile (1 case in 3): grow the persistent hash maps / vectors past one or two capacity doublings, then
+        // remove most of the entries so that they shrink again (rehash to a smaller capacity, vector resize downwards)
+        // before the maintenance operations — nothing of this is reachable with the small alias/key pools of gen_step.
+        let mut bulk: Vec<String> = vec![];
+        if rng.chance(1, 3) {
+            let na = rng.range(58, 150);
+            let al: Vec<String> = (0..na).map(|i| hex(format!("b{i}").as_bytes())).collect();
+            if rng.chance(1, 2) {
+                bulk.push("q ix s6b".to_string());
+            }
+            bulk.push(format!("q ina {} s6b=i1", al.join(",")));
+            if rng.chance(1, 2) {
+                bulk.push(format!("q in {} s6b=i{}", rng.range(40, 120), rng.below(3)));
+            }
+            bulk.push("m reopen".to_string());
+            // removals: nodes 1..=na are the aliased ones (fresh database)
+            let keep = rng.range(0, na / 2);
+            let mut ids: Vec<u64> = (1..=na).collect();
+            // deterministic shuffle
+            for i in (1..ids.len()).rev() {
+                let j = rng.below(i as u64 + 1) as usize;
+                ids.swap(i, j);
+            }
+            ids.truncate((na - keep) as usize);
+            for chunk in ids.chunks(rng.range(8, 40) as usize) {
+                if rng.chance(1, 4) {
+                    for id in chunk {
+                        bulk.push(format!("q ra {}", hex(format!("b{}", id - 1).as_bytes())));
+                    }
+                } else {
+                    bulk.push(format!("q rm {}", chunk.iter().map(|i| i.to_string()).collect::<Vec<_>>().join(",")));
+                }
+            }
+            bulk.push(format!("m {}", ops[rng.below(ops.len() as u64) as usize]));
+        }
+        for b in bulk {
+            if let Some(step) = Step::parse(&b) {
+                lines.push(step.line());
+                let _ = guarded(|| {
+                    let _ = step.run(&mut db);
+                });
+            } else if b.starts_with("m ") {
+                lines.push(b);
+            } else {
+                panic!("bulk: unparsable step {b}");
+            }
+        }
+        live = dump(&db, false).1;
         for i in 0..n {
             let step = gen_step(rng, &live);
             lines.push(step.line());
